@@ -32,7 +32,8 @@ def field_names(c):
 def field_type(c, i, key):
     p = c["fields"][i]["p"]
     if p == "none":
-        return "i32"
+        # (under derive(Pointer) a field may be delegated to - by itself or as `_variant` - and must then be a pointer)
+        return "&'static i32" if c["D"] == "Pointer" else "i32"
     wrap = vlib.seeded_pick(key + str(i), 0, 3)
     return [p, f"&'static {p}", f"W<{p}>"][wrap]
 
